@@ -1,4 +1,5 @@
 import Xsm.Proofs.SnapshotRun
+import Xsm.Proofs.SnapshotTree
 /-!
 # C12 — snapshots are faithful, isolated resume points
 
@@ -523,5 +524,153 @@ example : DISorted cxM cxS.hist := by
     rw [h] at hkv; simpa using hkv
   subst this
   decide
+
+/-! ## 6. Persisted actor TREES (`actors` / `system`), any depth and width
+
+Model `Xsm/Model/SnapshotTree.lean` (independent of the engine model: parametric in the per-interpreter payload `σ`,
+i.e. in everything §1–§5 are about), lemmas `Xsm/Proofs/SnapshotTree.lean`.  `Snap σ` is a persisted snapshot
+(`own`, `actors` = records `(actor id, src, child snapshot)`, `system` = systemId ↦ actor id), `Live σ` an interpreter
+with its children (`kids`), its parked records (`parked` = `_pending_actor_snapshots`), its registry (`sys`) and the
+pending systemIds (`pend`).  `snapTree` = `get_persisted_snapshot`, `restoreTree svc` = `from_snapshot` where
+`svc key` says whether `services[key]` yields a machine — with the repairs proposed for the findings F60
+(`system` entries are looked up in the whole restored tree) and F62 (a systemId that names a parked actor is carried
+forward with the record); `restoreAsIs` is the code at /repo HEAD, about which only the two counterexamples at the end
+are stated.  Finding F61 (watcher threads of the sync engine) is about threads, not about this data.
+
+DOCUMENTED EXCEPTIONS, and where they are in the statements: a record whose `src` does not resolve (its service is not
+registered on the restoring interpreter; or it has no `src` at all — a machine started by `invoke` on the async engine,
+an in-flight service) is not rebuilt but PARKED.  `WFLive svc t` therefore asks that every live child's key resolves
+and that parked records do not; `AllAvail svc s` is "no exception applies anywhere in the tree".
+
+* `tree_restore_snap`          restore ∘ snap = id on every well-formed live hierarchy — parked records included (they
+                               stay parked, verbatim, with their systemIds)
+* `tree_restore_wf`            what `from_snapshot` builds from a decoded snapshot is well-formed (for ANY `svc`)
+* `tree_snap_restore`          snap ∘ restore = id (re-snapshot reproduces the snapshot) when every record resolves
+* `tree_cycle_fixed`, `tree_repeated_cycles`, `tree_repeated_cycles_exact`
+                               any number of save/restore cycles: from the first cycle on the snapshot no longer changes,
+                               whatever services are missing; with every service present it never changes at all
+* `tree_registry_after_restore`, `tree_registered_iff`
+                               the registry maps exactly the systemIds of the snapshot whose actor came back alive, at any
+                               depth, to the recorded ids; those that name a parked actor are kept pending; the rest is dropped
+* `tree_degraded_cycle`        one cycle with services missing: live records re-snapshotted, parked records VERBATIM behind
+                               them, `system` = pending ++ live = a permutation of the entries that name an actor of the tree;
+                               no record id lost or invented
+* `tree_asis_loses_grandchild_systemid` (F60), `tree_asis_drops_systemid_of_parked_actor` (F62): the unrepaired code -/
+section Trees
+open XSM.SnapTree
+variable {σ : Type}
+
+/-- **restore ∘ snap = id**, all hierarchies, unbounded depth and width -/
+theorem tree_restore_snap (svc : String → Bool) (t : Live σ) (h : WFLive svc t) :
+    restoreTree svc (snapTree t) = t :=
+  restore_snapTree svc t h
+
+/-- `from_snapshot` builds a well-formed hierarchy from any decoded snapshot, whatever services are registered -/
+theorem tree_restore_wf (svc : String → Bool) (s : Snap σ) (h : WFSnap s) : WFLive svc (restoreTree svc s) :=
+  wfLive_restore svc s h
+
+/-- **re-snapshot idempotence**: `snap (restore s) = s` when no documented exception applies -/
+theorem tree_snap_restore (svc : String → Bool) (s : Snap σ) (hw : WFSnap s) (ha : AllAvail svc s) (hl : SysLive svc s) :
+    snapTree (restoreTree svc s) = s :=
+  snap_restoreTree svc s hw ha hl
+
+/-- whatever is missing from `services`: the snapshot after one cycle is a fixed point of further cycles -/
+theorem tree_cycle_fixed (svc : String → Bool) (s : Snap σ) (h : WFSnap s) :
+    cycle svc (cycle svc s) = cycle svc s := by
+  unfold cycle
+  rw [restore_snapTree svc (restoreTree svc s) (wfLive_restore svc s h)]
+
+/-- **repeated cycles**, any `services`: `n+1` cycles give what one cycle gives -/
+theorem tree_repeated_cycles (svc : String → Bool) (s : Snap σ) (h : WFSnap s) (n : Nat) :
+    cycles svc (n + 1) s = cycle svc s := by
+  induction n with
+  | zero => rfl
+  | succ n ih =>
+    show cycle svc (cycles svc (n + 1) s) = cycle svc s
+    rw [ih]
+    exact tree_cycle_fixed svc s h
+
+/-- **repeated cycles**, every service present: nothing ever changes -/
+theorem tree_repeated_cycles_exact (svc : String → Bool) (s : Snap σ) (hw : WFSnap s) (ha : AllAvail svc s)
+    (hl : SysLive svc s) (n : Nat) : cycles svc n s = s := by
+  induction n with
+  | zero => rfl
+  | succ n ih =>
+    show cycle svc (cycles svc n s) = s
+    rw [ih]
+    exact snap_restoreTree svc s hw ha hl
+
+/-- **the registry after a restore**: exactly the entries of the snapshot whose actor came back alive (`liveIn`: its
+    record and the records of all its ancestors resolve), at any depth; the entries that name a parked actor, or an actor
+    inside a parked record, are kept pending; every other entry (it names nothing in the tree) is dropped -/
+theorem tree_registry_after_restore (svc : String → Bool) (s : Snap σ) :
+    (restoreTree svc s).sys = s.system.filter (fun e => liveIn svc s.actors e.2) ∧
+    (restoreTree svc s).pend = s.system.filter (fun e => !liveIn svc s.actors e.2 && parkedIn svc s.actors e.2) ∧
+    (∀ aid, (restoreTree svc s).has aid = liveIn svc s.actors aid) ∧
+    (∀ aid, (restoreTree svc s).isParked aid = parkedIn svc s.actors aid) := by
+  refine ⟨sys_restoreTree svc s, pend_restoreTree svc s, fun aid => ?_, fun aid => ?_⟩
+  · cases s with
+    | mk own actors system => exact has_restoreV repaired svc (.mk own actors system) aid
+  · cases s with
+    | mk own actors system => exact isParked_restoreV repaired svc (.mk own actors system) aid
+
+/-- a systemId is registered after the restore iff the snapshot records it for an actor that is alive again -/
+theorem tree_registered_iff (svc : String → Bool) (s : Snap σ) (sid aid : String) :
+    (sid, aid) ∈ (restoreTree svc s).sys ↔ (sid, aid) ∈ s.system ∧ (restoreTree svc s).has aid = true := by
+  rw [(tree_registry_after_restore svc s).1, (tree_registry_after_restore svc s).2.2.1 aid, List.mem_filter]
+
+/-- **one cycle with services missing** (the documented degraded mode): the payload is untouched; the records of the
+    actors that came back are re-snapshotted, the parked records follow VERBATIM; `system` is pending ++ live, a
+    permutation of the snapshot's entries that name an actor of the tree; the record ids are a permutation of the
+    snapshot's: nothing is lost, nothing is invented -/
+theorem tree_degraded_cycle (svc : String → Bool) (s : Snap σ) (h : WFSnap s) :
+    (cycle svc s).own = s.own ∧
+    (cycle svc s).actors = snapKids (restoreKids repaired svc s.actors) ++ s.actors.filter (fun r => !avail svc r.2.1) ∧
+    (cycle svc s).system = (restoreTree svc s).pend ++ (restoreTree svc s).sys ∧
+    (cycle svc s).system.Perm (s.system.filter (fun e => liveIn svc s.actors e.2 || parkedIn svc s.actors e.2)) ∧
+    ((cycle svc s).actors.map (·.1)).Perm (s.actors.map (·.1)) := by
+  obtain ⟨h1, h2, h3⟩ := cycle_parts svc s h
+  refine ⟨h1, h2, h3, ?_, ?_⟩
+  · rw [h3, sys_restoreTree, pend_restoreTree]
+    exact filter_or_perm _ _ _
+  · rw [h2, List.map_append, snapKids_ids, restoreKids_ids]
+    simp only [parkedOf, ← List.map_append]
+    exact (List.filter_append_perm (fun r => avail svc r.2.1) s.actors).map _
+
+/-- witnesses: a root whose child `r:a` has a child `r:a:g` registered as `G1`; a root whose child `r:a` is `S1` -/
+def exDeep : Snap Unit := .mk () [("r:a", some "k1", .mk () [("r:a:g", some "k2", .mk () [] [])] [])] [("G1", "r:a:g")]
+def exFlat : Snap Unit := .mk () [("r:a", some "k1", .mk () [] [])] [("S1", "r:a")]
+
+/-- **F60** (open): the code at HEAD looks a `system` entry up among the DIRECT children only — the grandchild is
+    restored, its systemId is not, and the re-snapshot has lost the entry; the repaired lookup keeps it -/
+theorem tree_asis_loses_grandchild_systemid :
+    (restoreAsIs (fun _ => true) exDeep).has "r:a:g" = true ∧
+    (restoreAsIs (fun _ => true) exDeep).sys = [] ∧
+    (snapTree (restoreAsIs (fun _ => true) exDeep)).system = [] ∧
+    (restoreTree (fun _ => true) exDeep).sys = [("G1", "r:a:g")] ∧
+    (snapTree (restoreTree (fun _ => true) exDeep)).system = exDeep.system := by
+  refine ⟨by decide, by decide, by decide, by decide, by decide⟩
+
+/-- **F62** (open): with the service of `r:a` missing the code at HEAD parks the record and re-emits it verbatim, but
+    drops the systemId that names it; the repaired code carries it forward -/
+theorem tree_asis_drops_systemid_of_parked_actor :
+    (restoreAsIs (fun _ => false) exFlat).parked.map (·.1) = ["r:a"] ∧
+    (snapTree (restoreAsIs (fun _ => false) exFlat)).actors.map (·.1) = ["r:a"] ∧
+    (snapTree (restoreAsIs (fun _ => false) exFlat)).system = [] ∧
+    (snapTree (restoreTree (fun _ => false) exFlat)).system = [("S1", "r:a")] := by
+  refine ⟨by decide, by decide, by decide, by decide⟩
+
+/-- the hypotheses are satisfiable (nothing is vacuous): the witness snapshot is well-formed, every record resolves, every
+    `system` entry names an actor that comes back; hence what `from_snapshot` builds from it is a well-formed hierarchy -/
+theorem tree_hypotheses_hold_of_example :
+    WFSnap exDeep ∧ AllAvail (fun _ => true) exDeep ∧ SysLive (fun _ => true) exDeep ∧
+    WFLive (fun _ => true) (restoreTree (fun _ => true) exDeep) ∧ WFLive (fun _ => false) (restoreTree (fun _ => false) exDeep) := by
+  have hw : WFSnap exDeep := by
+    simp [exDeep, WFSnap, WFRecs]
+  refine ⟨hw, ?_, ?_, tree_restore_wf _ _ hw, tree_restore_wf _ _ hw⟩
+  · simp [exDeep, AllAvail, AllAvailRecs, avail]
+  · simp [exDeep, SysLive, SysLiveRecs, liveIn, liveInSnap, avail]
+
+end Trees
 
 end XSM.C12
